@@ -1,1 +1,1 @@
-import LnnVerif.Model.PropEngine
+import LnnVerif.Props.C01
